@@ -6,6 +6,7 @@ import (
 	"fmt"
 	"os"
 	"path/filepath"
+	"regexp"
 	"sort"
 	"strings"
 	"sync"
@@ -25,6 +26,8 @@ type c06Case struct {
 	Schedule []int      `json:"schedule,omitempty"` // replay: exactly this choice sequence
 	MaxExec  int        `json:"max_exec,omitempty"`
 }
+
+var c06Digits = regexp.MustCompile(`[0-9]+`)
 
 var c06Kinds = []string{"create", "match", "mismatch", "update"}
 
@@ -355,7 +358,7 @@ func c06Run(c *vfCtx, cs c06Case) {
 				c.harnessErr("replay: schedule diverged")
 				return
 			}
-			obs := fmt.Sprint(w.outs, x.Trace, vfHashDir(vfSnapDir(w.dir)))
+			obs := fmt.Sprint(w.outs, c06Digits.ReplaceAllString(strings.Join(x.Trace, " "), "#"), vfHashDir(vfSnapDir(w.dir)))
 			if rep == 0 {
 				first = obs
 			} else if obs != first {
@@ -383,10 +386,11 @@ func c06Run(c *vfCtx, cs c06Case) {
 		}
 		if execs == 1 {
 			// determinism self-check: replay the first complete schedule and compare
-			tr := strings.Join(x.Trace, " ")
+			// (digits are masked: code under test may use random temporary file names)
+			tr := c06Digits.ReplaceAllString(strings.Join(x.Trace, " "), "#")
 			outs := fmt.Sprint(w.outs)
 			y := sched.Run(x.Choices, mk(), nil)
-			if strings.Join(y.Trace, " ") != tr || fmt.Sprint(w.outs) != outs {
+			if c06Digits.ReplaceAllString(strings.Join(y.Trace, " "), "#") != tr || fmt.Sprint(w.outs) != outs {
 				c.harnessErr("non-determinism: replaying schedule %v gave a different trace", x.Choices)
 				return false
 			}
